@@ -823,6 +823,19 @@ Lemma program_layout p f fn : nth_error p f = Some fn ->
   code_at (compile_program p) (entry p f) (compile_func (entry p) (entry p f) fn).
 Proof. intros H. apply (code_at_funcs (entry p) p 0 [] f fn eq_refl H). Qed.
 
+(* the simulation for a call in any context *)
+Lemma call_simulation p f vs s K n :
+  match call n p f vs with
+  | Ok v => exists qr L A, nth_error (compile_program p) qr = Some IRet /\
+              star (compile_program p) (St (entry p f) [] [] (vs ++ s) K) (St qr L A (v :: s) K)
+  | Fault => goes_wrong (compile_program p) (St (entry p f) [] [] (vs ++ s) K)
+  | _ => True
+  end.
+Proof.
+  pose proof (sim_all_n p (compile_program p) (entry p) (program_layout p) n) as (_ & _ & Hc & _ & _).
+  apply Hc.
+Qed.
+
 (* ---------- the theorem ---------- *)
 Theorem compile_correct p f vs n :
   match run_src n p f vs with
